@@ -230,6 +230,21 @@ pub fn account_trace(st: &mut Stats, r: &RunSpec, o: &RunOutcome) {
     }
     let h = sha256_(&shape);
     st.shapes.insert(u64::from_le_bytes(h[..8].try_into().unwrap()));
+    if r.path_style > 0 {
+        st.probe("env_relative_or_slashed_paths");
+    }
+    if r.dump_in_data {
+        st.probe("env_dump_folder_inside_data_dir");
+    }
+    if r.verbosity > 0 {
+        st.probe("env_verbose_logging");
+    }
+    if r.plan.clock_step_ms.is_some() {
+        st.probe("env_simulated_clock");
+    }
+    if r.tty {
+        st.probe("env_stdout_is_a_terminal");
+    }
     *st.thread_counts.entry(r.threads).or_insert(0) += 1;
     *st.callbacks.entry(r.callback.clone()).or_insert(0) += 1;
     st.io_events += o.trace.len() as u64;
